@@ -1,9 +1,11 @@
+use std::mem;
+
 use crate::error::{Error, ErrorKind};
 use crate::value::merge_object::MergeSeq;
 use crate::value::{DynObject, ObjectRepr, Tuple, Value, ValueKind, ValueRepr};
 
 const MIN_I128_AS_POS_U128: u128 = 170141183460469231731687303715884105728;
-const MAX_REPEATED_STRING_LEN: usize = 100_000_000;
+pub(crate) const MAX_REPEATED_STRING_LEN: usize = 100_000_000;
 
 /// Iterator wrapper that provides exact size hints for iterators with known length.
 pub(crate) struct LenIterWrap<I: Send + Sync>(pub(crate) usize, pub(crate) I);
@@ -453,11 +455,31 @@ fn repeat_iterable(n: &Value, seq: &DynObject) -> Result<Value, Error> {
         )
     }));
 
+    // the same limit that applies to the length of repeated strings applies to
+    // the number of items, and an empty sequence stays empty no matter how often
+    // it is repeated.
+    let total = match len.checked_mul(n) {
+        Some(total) if total <= MAX_REPEATED_STRING_LEN => total,
+        _ => {
+            return Err(Error::new(
+                ErrorKind::InvalidOperation,
+                "repeated sequence is too large",
+            ))
+        }
+    };
+    let n = if len == 0 { 0 } else { n };
+
     if let Some(tuple) = seq.downcast_ref::<Tuple>() {
-        let capacity = ok!(len.checked_mul(n).ok_or_else(|| {
-            Error::new(ErrorKind::InvalidOperation, "repeated tuple is too large")
-        }));
-        let mut values = Vec::with_capacity(capacity);
+        // tuples are repeated eagerly, they may occupy as much memory as a
+        // repeated string.
+        if !matches!(total.checked_mul(mem::size_of::<Value>()), Some(size) if size <= MAX_REPEATED_STRING_LEN)
+        {
+            return Err(Error::new(
+                ErrorKind::InvalidOperation,
+                "repeated tuple is too large",
+            ));
+        }
+        let mut values = Vec::with_capacity(total);
         for _ in 0..n {
             values.extend(tuple.iter().cloned());
         }
@@ -471,7 +493,7 @@ fn repeat_iterable(n: &Value, seq: &DynObject) -> Result<Value, Error> {
     // improve on this here.
     Ok(Value::make_object_iterable(seq.clone(), move |seq| {
         Box::new(LenIterWrap(
-            len * n,
+            total,
             (0..n).flat_map(move |_| {
                 seq.try_iter().unwrap_or_else(|| {
                     Box::new(
